@@ -314,7 +314,7 @@ pub fn run(ctx: &mut Ctx) {
 			ctx,
 			fam,
 			n,
-			|| (gen::arb_value(gen::ValueCfg::MEDIUM), gen::arb_choices(), proptest::collection::vec(gen::arb_mutation(), 1..=3)),
+			|| (gen::arb_doc_value(gen::ValueCfg::MEDIUM), gen::arb_choices(), proptest::collection::vec(gen::arb_mutation(), 1..=3)),
 			|(v, ch, muts)| {
 				let text = super::c01::f5_text(v, ch, muts);
 				match property(text.as_bytes(), &ALL_EPS) {
